@@ -46,12 +46,14 @@ func numericRuleConfigs(kind string, thorough bool) [][2]string {
 	add("rule=gt+lt,bound=1..10", "gt:1 lt:10")
 	add("rule=const,bound=7", "const:7")
 	add("rule=in,bound=1|5|7", "in:[1,5,7]")
+	if kind == "double" {
+		add("rule=const,bound=precise", "const:123456789.125")
+		add("rule=in,bound=precise", "in:[0.1,16777217,123456789.125]")
+		add("rule=gte,bound=precise", "gte:123456789.125")
+	}
 	if is64 {
 		add("rule=in,bound=big", "in:[9007199254740993,5]")
 		add("rule=const,bound=big", "const:9007199254740993")
-	}
-	if thorough {
-		add("rule=not_in,bound=1|5", "not_in:[1,5]")
 	}
 	return out
 }
@@ -92,7 +94,9 @@ func RuleSpecs(thorough bool) ([]*spec.Spec, map[string][]RuleCase) {
 	}
 	{
 		var cs []RuleCase
-		s := func(label, body string) { cs = append(cs, RuleCase{Kind: "string", Label: label, Rules: "string:{" + body + "}"}) }
+		s := func(label, body string) {
+			cs = append(cs, RuleCase{Kind: "string", Label: label, Rules: "string:{" + body + "}"})
+		}
 		for _, n := range []string{"0", "1", "3"} {
 			s("rule=min_len,bound="+n, "min_len:"+n)
 			s("rule=max_len,bound="+n, "max_len:"+n)
@@ -125,6 +129,9 @@ func RuleSpecs(thorough bool) ([]*spec.Spec, map[string][]RuleCase) {
 		cs = append(cs,
 			RuleCase{Kind: "string", Card: "repeated", Label: "rule=items.min_len,bound=2", Rules: "repeated:{items:{string:{min_len:2}}}"},
 			RuleCase{Kind: "int32", Card: "repeated", Label: "rule=items.gt,bound=0", Rules: "repeated:{items:{int32:{gt:0}}}"},
+			RuleCase{Kind: "string", Card: "repeated", Label: "rule=items.in,elem=string", Rules: `repeated:{min_items:1 items:{string:{in:["a","bb"]}}}`},
+			RuleCase{Kind: "int32", Card: "repeated", Label: "rule=items.in,elem=int32", Rules: "repeated:{items:{int32:{in:[1,2]}}}"},
+			RuleCase{Kind: "string", Card: "repeated", Label: "rule=items.const,elem=string", Rules: `repeated:{items:{string:{const:"a"}}}`},
 			RuleCase{Kind: "string", Card: "repeated", Label: "rule=required", Rules: "required:true"},
 		)
 		mk("rules_collections", "collections", cs)
